@@ -1,6 +1,7 @@
 import Gengo.Model.Loader
 import Gengo.Lemmas.WalkInv
 import Gengo.Lemmas.WalkIso
+import Gengo.Lemmas.WalkReach
 import Gengo.Props.C01
 import Gengo.Lemmas.StrOrder
 /-! # C11 – the universe does not depend on how loading was split or ordered
@@ -570,6 +571,73 @@ theorem requested_package_complete_v2 (w : World) (hwf : WellFormed w.facts w.v2
       obtain ⟨a5, b5, c5, d5⟩ := WalkInv.addImports_same st4.u p.path (p.imports.mergeSort Str.le)
       obtain ⟨af, av, ac⟩ := WalkName.addImports_idx st4.u p.path (p.imports.mergeSort Str.le)
       exact k.same _ _ a5 b5 c5 d5 af av ac h4
+
+/-! ## the common part is closed under reachability (Lemmas/WalkReach.lean) -/
+open Gengo.WalkReach
+
+/-- a name registered with a kind in both universes gives corresponding objects -/
+theorem registered_in_both_corresponds {u1 u2 : U} {n : Name} {o1 o2 : Nat} {ob1 ob2 : Obj}
+    (l1 : AL.lookup n u1.types = some o1) (l2 : AL.lookup n u2.types = some o2)
+    (hob1 : u1.objs[o1]? = some ob1) (hob2 : u2.objs[o2]? = some ob2) (hk1 : ob1.kind ≠ .unknown) (hk2 : ob2.kind ≠ .unknown) :
+    Corr u1 u2 o1 o2 :=
+  ⟨⟨false, n, .inl ⟨rfl, l1⟩, .inl ⟨rfl, l2⟩⟩, ⟨ob1, hob1, hk1⟩, ⟨ob2, hob2, hk2⟩⟩
+
+/-- a declared type that is present (as after the scan of its package, `requested_package_complete_v2`,
+`requested_packages_complete_v1`) in both universes gives corresponding objects -/
+theorem present_in_both_corresponds {F : Facts} {v2 : Bool} {u1 u2 : U} {ob : GObj}
+    (p1 : C01.Present F v2 u1 ob) (p2 : C01.Present F v2 u2 ob) :
+    ∃ o1 o2, AL.lookup (regName F v2 ob.ty) u1.types = some o1 ∧ AL.lookup (regName F v2 ob.ty) u2.types = some o2 ∧
+      Corr u1 u2 o1 o2 := by
+  obtain ⟨o1, t1, a1, b1, c1⟩ := p1
+  obtain ⟨o2, t2, a2, b2, c2⟩ := p2
+  exact ⟨o1, o2, a1, a2, registered_in_both_corresponds a1 a2 b1 b2 c1 c2⟩
+
+/-- **reachable_parts_agree_v2**: load the same program twice, with any initial requests and any sequences of incremental
+loads.  Start from two corresponding objects – registered under one name with a kind in either universe, e.g. a type of a
+package requested in both.  Whatever is reached from the first in the one universe, following the references of filled
+objects along any sequence of positions (element, key, i-th member, i-th parameter, result, underlying type), is matched
+by an object reached along the very same positions in the other universe, and the two correspond again.  So the part the
+two universes have in common contains everything reachable from what both requested, and they agree on all of it. -/
+theorem reachable_parts_agree_v2 (w : World) (hwf : WellFormed w.facts w.v2) (hbt : BtKinds w.bt)
+    (hc : Consistent w.facts w.v2) (req1 req2 : List Str) (ms1 ms2 : List (List Str)) (a b st1 st2 : LState)
+    (h1a : newUniverseV2 w req1 = some a) (h1 : loadsV2 w a ms1 = some st1)
+    (h2a : newUniverseV2 w req2 = some b) (h2 : loadsV2 w b ms2 = some st2)
+    (r1 r2 : Nat) (h : Corr st1.u st2.u r1 r2) (p : List Nat) (r1' : Nat) (hr : ReachAt st1.u r1 p r1') :
+    ∃ r2', ReachAt st2.u r2 p r2' ∧ Corr st1.u st2.u r1' r2' :=
+  common_part_closed hc (loadsV2_faithful w hwf hbt req1 ms1 a st1 h1a h1) (loadsV2_faithful w hwf hbt req2 ms2 b st2 h2a h2) hr r2 h
+
+/-- **reachable_parts_agree_v1**: the same for `FindTypes` followed by any sequence of `AddDirTo` -/
+theorem reachable_parts_agree_v1 (w : World) (hwf : WellFormed w.facts w.v2) (hbt : BtKinds w.bt)
+    (hc : Consistent w.facts w.v2) (req1 req2 : List Str) (ps1 ps2 : List Str) (a b st1 st2 : LState)
+    (h1a : findTypesV1 w req1 = some a) (h1 : addDirsV1 w a ps1 = some st1)
+    (h2a : findTypesV1 w req2 = some b) (h2 : addDirsV1 w b ps2 = some st2)
+    (r1 r2 : Nat) (h : Corr st1.u st2.u r1 r2) (p : List Nat) (r1' : Nat) (hr : ReachAt st1.u r1 p r1') :
+    ∃ r2', ReachAt st2.u r2 p r2' ∧ Corr st1.u st2.u r1' r2' :=
+  common_part_closed hc (addDirsV1_faithful w hwf hbt req1 ps1 a st1 h1a h1) (addDirsV1_faithful w hwf hbt req2 ps2 b st2 h2a h2) hr r2 h
+
+/-- **corresponding_objects_agree_v2**: … and corresponding objects say the same: both are objects of the builtins table
+(never filled from a node), or they have the same kind and their references correspond position by position -/
+theorem corresponding_objects_agree_v2 (w : World) (hwf : WellFormed w.facts w.v2) (hbt : BtKinds w.bt)
+    (hc : Consistent w.facts w.v2) (req1 req2 : List Str) (ms1 ms2 : List (List Str)) (a b st1 st2 : LState)
+    (h1a : newUniverseV2 w req1 = some a) (h1 : loadsV2 w a ms1 = some st1)
+    (h2a : newUniverseV2 w req2 = some b) (h2 : loadsV2 w b ms2 = some st2)
+    (r1 r2 : Nat) (h : Corr st1.u st2.u r1 r2) :
+    ∃ ob1 ob2 : Obj, st1.u.objs[r1]? = some ob1 ∧ st2.u.objs[r2]? = some ob2 ∧
+      ((ob1.src = none ∧ ob2.src = none) ∨ (ob1.kind = ob2.kind ∧ All2 (Corr st1.u st2.u) (crefs ob1) (crefs ob2))) :=
+  corr_step hc (loadsV2_faithful w hwf hbt req1 ms1 a st1 h1a h1) (loadsV2_faithful w hwf hbt req2 ms2 b st2 h2a h2) h
+
+/-- what is filled in the one universe and has a kind in the other was filled there too (any two faithful universes) -/
+theorem filled_in_one_filled_in_the_other {bt : List Builtin} {F : Facts} {v2 : Bool} {u1 u2 : U}
+    (h1 : Faithful bt F v2 u1) (h2 : Faithful bt F v2 u2)
+    {n : Name} {o1 o2 : Nat} {ob1 ob2 : Obj} (l1 : AL.lookup n u1.types = some o1) (l2 : AL.lookup n u2.types = some o2)
+    (hob1 : u1.objs[o1]? = some ob1) (hob2 : u2.objs[o2]? = some ob2) (hs : ob1.src ≠ none) (hk : ob2.kind ≠ .unknown) :
+    ob2.src ≠ none :=
+  filled_in_both h1.2 h2.2 l1 l2 hob1 hob2 hs hk
+
+/-! non-vacuity of the reachability statement: in the cyclic demo program walked from `T`, the struct object reaches the
+pointer object at position 0 and itself at positions 0, 0 -/
+example : ((walk [] C01.demoFacts false 8 {} 0 none).map (fun r => (r.1.objs.map (fun ob => (ob.kind, crefs ob, ob.src.isSome))))) =
+    some [(.struct, [1], true), (.pointer, [0], true)] := by decide
 
 /-! non-vacuity: walking the cyclic demo program (`type T struct{ Next *T }`) from `T` and from `*T` gives universes that
 number their objects differently – `p.T` is object 0 in the one and object 1 in the other – so the correspondence of
